@@ -9,7 +9,7 @@
    (step_capacity_partial, Proofs/Capacity.v; hypotheses and uncovered operations as in C14) and
    monitored on implementation states after every step (agg.used_is_sum, agg.used_bounds,
    agg.shpledged_is_sum). *)
-From SaoVerif Require Import Base.Prelude Base.Ints Base.Dec Model.Did Model.Types Model.Monad Model.Bank Model.Select Model.Node Model.Storage Model.Sao Model.Hooks Model.App Model.Spec Proofs.Money Model.Inv Proofs.Capacity.
+From SaoVerif Require Import Base.Prelude Base.Ints Base.Dec Model.Did Model.Types Model.Monad Model.Bank Model.Select Model.Node Model.Storage Model.Sao Model.Hooks Model.App Model.Spec Proofs.Money Model.Inv Proofs.RefInt Proofs.Capacity Proofs.Collateral.
 From RecordUpdate Require Import RecordUpdate.
 Import RecordSetNotations.
 
@@ -43,6 +43,31 @@ Theorem C07_add_vstorage_takes : forall cx s c sz s' d, step cx s (OAddVstorage 
     (c <> macc NODE -> balance s' c = balance s c - amount /\ balance s' (macc NODE) = balance s (macc NODE) + amount).
 Proof. first [exact add_vstorage_takes | apply add_vstorage_takes]. Qed.
 Print Assumptions C07_add_vstorage_takes.
+
+(* what is taken for a shard is what is recorded for it - or the shortfall is recorded as debt *)
+Theorem C07_shard_pledge_takes : forall id sh price s sh' s' p,
+  shard_pledge id sh price s = Ok sh' s' -> pledges s !! sh_sp sh = Some p -> sh_sp sh <> macc NODE ->
+  exists taken p',
+    0 <= taken /\ taken <= sh_pledge sh' /\
+    balance s' (sh_sp sh) = balance s (sh_sp sh) - taken /\
+    balance s' (macc NODE) = balance s (macc NODE) + taken /\
+    default 0 (debts s' !! sh_sp sh) = default 0 (debts s !! sh_sp sh) + (sh_pledge sh' - taken) /\
+    (sh_renew sh = [] -> taken = sh_pledge sh') /\
+    (forall a, a <> sh_sp sh -> a <> macc NODE -> bal s' !! a = bal s !! a) /\
+    (forall k, k <> sh_sp sh -> debts s' !! k = debts s !! k) /\
+    pledges s' !! sh_sp sh = Some p' /\ pl_shpledged p' = pl_shpledged p + sh_pledge sh' /\
+    pl_total p' = pl_total p /\ pl_spledged p' = pl_spledged p /\
+    (forall k, k <> sh_sp sh -> pledges s' !! k = pledges s !! k) /\
+    shards s' !! id = Some sh' /\ sh' = sh <| sh_pledge := sh_pledge sh' |>.
+Proof. first [exact shard_pledge_takes | apply shard_pledge_takes]. Qed.
+Print Assumptions C07_shard_pledge_takes.
+
+Theorem C07_collateral_nonvacuous :
+  exists sh, shards W.s2 !! 1 = Some sh /\ 0 < sh_pledge sh /\
+    balance W.s2 "T" = balance W.s1 "T" - sh_pledge sh /\
+    balance W.s2 (macc NODE) = balance W.s1 (macc NODE) + sh_pledge sh.
+Proof. first [exact collateral_nonvacuous | apply collateral_nonvacuous]. Qed.
+Print Assumptions C07_collateral_nonvacuous.
 
 (* 0 <= used <= total is kept by every covered operation *)
 Theorem C07_step_capacity_partial : forall cx s op,
